@@ -389,7 +389,7 @@ def gen_case(rng, kind):
         if rng.random() < 0.3:
             nodes.append(("C", " after "))
             c.features.add("top-level-comment")
-        c.docs[me] = avoid_f3(nodes)
+        c.docs[me] = nodes      # (C20-F3 is repaired: its class is no longer kept out of the stream, see avoid_f3)
     hrefs_dd = "href-dotdot" in c.features
     c.dotdot_cycle = kind.startswith("cycle") and hrefs_dd
     return c
@@ -406,7 +406,8 @@ def may_vanish(n):
 
 
 def avoid_f3(nodes):
-    """finding C20-F3 (null dereference in the parser): excluded from the generated stream by exactly this predicate --
+    """[not applied any more since the fix: commit 380a995]
+    finding C20-F3 (null dereference in the parser): was excluded from the generated stream by exactly this predicate --
     an xi:include that is the first child of its parent, is directly followed by character data and may be replaced by
     nothing.  A comment is put in front of it.  (The witness itself is replayed in a process of its own.)"""
     out = []
